@@ -515,6 +515,9 @@ def rule_lookup_surface(ctx):
     from .roles import HASHMAP_REMOVE, DASHMAP_REMOVE
     direct -= {_rootof(n) for n in prog.bodies if R.ext_calls.get(n, set()) & (HASHMAP_REMOVE | DASHMAP_REMOVE)}
     barrier = set(looks) | set(R.maintenance) | set(R.try_sync)
+    # whatever builds one of the analysed iterators (`BaseCache::iter`, `Iter::new`) hands the map to the analysed `next`
+    iter_adts = {norm(str((prog.bodies[n].impl_self or {}).get('adt') or '')) for n in looks if n.endswith(' as std::iter::Iterator>::next') and n in prog.bodies}
+    barrier |= {n for n, b_ in prog.bodies.items() if b_.kind != 'closure' and norm(str(b_.locals[0]['ty'].get('adt') or '')) in iter_adts}
     for k_ in ('unsync.insert_handler', 'unsync.update_handler', 'sync.do_insert', 'sync.upsert'):
         try:
             barrier.add(named(ctx, k_))
